@@ -4,4 +4,6 @@ Definition flags (m : meth) : sclass * bool := match m with MUnion => (KUnion, f
 Definition kind (m : meth) : opk := match m with MUnion => FROM | MUnionAll => FROM | MUnionByName => FROM | MIntersect => FROM | MIntersectAll => FROM | MExceptAll => FROM end.
 Definition swap : bool := false.
 Definition gen_facts : facts := mkFacts flags kind swap.
+Definition hash_text_exact : bool := true.
+Definition hash_name_chars : nat := 9.
 
